@@ -231,6 +231,23 @@ theorem split_many (lc : Libc) : ∀ (chunks : List Bytes) (t : Tok),
       simp only [List.flatten_cons]
       rw [split_two lc t c _ h0]
 
+/-- **streams of concatenated documents**: after a call that returned a value (status success, end
+position k inside or at the end of A), the tokener is as good as new - every later sequence of calls
+(e.g. on `A.drop k`, the rest of the stream, in any chunking) returns call by call what a tokener fresh
+from `json_tokener_new_ex` with the same depth and flags returns.  For every reachable tokener, any
+bytes, any flags, any libc. -/
+theorem stream_resume_like_new (lc : Libc) (t : Tok) (hr : Reachable lc t) (A : Bytes)
+    (h : (parseEx lc t A).err = .success) (calls : List Bytes) :
+    runCalls lc (parseEx lc t A).tok calls = runCalls lc (freshTok t.maxDepth t.flags) calls :=
+  next_calls_like_new lc t A calls (reachable_wf lc t hr) (reachable_hsInv lc t hr) h
+
+/-- the next document alone, with the resulting tokeners again equivalent -/
+theorem stream_next_document (lc : Libc) (t : Tok) (hr : Reachable lc t) (A B : Bytes)
+    (h : (parseEx lc t A).err = .success) :
+    let f := parseEx lc (parseEx lc t A).tok B; let g := parseEx lc (freshTok t.maxDepth t.flags) B
+    f.err = g.err ∧ f.value = g.value ∧ f.offset = g.offset ∧ f.stuck = g.stuck ∧ f.fault = g.fault ∧ Eqv f.tok g.tok :=
+  next_doc_like_new lc t A B (reachable_wf lc t hr) (reachable_hsInv lc t hr) h
+
 /-- non-vacuity: a number split inside its exponent, in strict mode at depth 1: the first call asks
 for more and the pair of calls agrees with the single call (both computed by the model) -/
 example : ∃ t, Tokener.new 32 1 = some t ∧
